@@ -112,7 +112,7 @@ func (c *Core) Login(username, password string) error {
 	return c.record("Login", map[string]any{"username": username, "password": password})
 }
 
-func copyFlags(f []imap.Flag) []imap.Flag       { return append([]imap.Flag(nil), f...) }
+func copyFlags(f []imap.Flag) []imap.Flag               { return append([]imap.Flag(nil), f...) }
 func copyAttrs(f []imap.MailboxAttr) []imap.MailboxAttr { return append([]imap.MailboxAttr(nil), f...) }
 
 func u32(v uint32) *uint32 { return &v }
@@ -455,7 +455,7 @@ func (u ua) Unauthenticate() error { return u.c.doUnauthenticate() }
 
 type sa struct{ c *Core }
 
-func (s sa) AuthenticateMechanisms() []string               { return s.c.Mechs }
+func (s sa) AuthenticateMechanisms() []string              { return s.c.Mechs }
 func (s sa) Authenticate(mech string) (sasl.Server, error) { return s.c.doAuthenticate(mech) }
 
 // Session returns an imapserver.Session backed by c whose dynamic type
